@@ -386,6 +386,10 @@ package jsonpatch
 
 //@ func findObject
 //@   requires args: pd != nil && options != nil && conOK(*pd)
+//@   callsite[C01] get#1 walks-the-reference-tokens-in-order-from-the-root: arg_key == unescape(tok(path, rangeindex + 2)) && (rangeindex == -1 ==> doc == old(*pd))
+//@   callsite[C01] intoAry#1 descends-into-the-child-just-looked-up: arg_n == next
+//@   callsite[C01] intoDoc#1 descends-into-the-child-just-looked-up: arg_n == next
+//@   ensures[C01] parent-of-a-one-token-path-is-the-root: result.0 != nil && ntok(path) == 2 ==> result.0 == old(*pd)
 //@   modifies region(lazyNode.which), region(lazyNode.doc), region(lazyNode.ary), region(partialDoc.obj), region(partialDoc.keys), region(partialDoc.opts), region(partialArray.nodes)
 //@   ensures[C01,C05] parsed-untouched: forall m *lazyNode {m.which} {m.doc} {m.ary} :: (old(allocated(m) && m.which == eDoc) ==> m.which == eDoc && m.doc == old(m.doc)) && (old(allocated(m) && m.which == eAry) ==> m.which == eAry && m.ary == old(m.ary))
 //@   ensures[C01,C05] docs-untouched: forall d *partialDoc {d.obj} {d.keys} :: old(allocated(d) && d.obj != nil) ==> d.obj == old(d.obj) && d.keys == old(d.keys)
@@ -400,6 +404,7 @@ package jsonpatch
 //@   ensures[C01] needs-slash: path != "" && ntok(path) < 2 ==> result.0 == nil
 //@   loop 1
 //@   invariant container: conOK(doc) && conOK(*pd) && *pd == old(*pd)
+//@   invariant parts-kept: len(parts) == ntok(path) - 2 && (forall j int {parts[j]} :: 0 <= j && j < len(parts) ==> parts[j] == tok(path, j + 1)) && (rangeindex == -1 ==> doc == old(*pd))
 //@   invariant children-stable: forall c *lazyNode {c.which} :: old(childOK(c)) ==> childOK(c)
 //@   invariant parsed-untouched: forall m *lazyNode {m.which} {m.doc} {m.ary} :: (old(allocated(m) && m.which == eDoc) ==> m.which == eDoc && m.doc == old(m.doc)) && (old(allocated(m) && m.which == eAry) ==> m.which == eAry && m.ary == old(m.ary))
 //@   invariant docs-untouched: forall d *partialDoc {d.obj} {d.keys} :: old(allocated(d) && d.obj != nil) ==> d.obj == old(d.obj) && d.keys == old(d.keys)
